@@ -7,7 +7,9 @@ from ..oracles import kernel_health, exc_key
 PROPERTY = 'C01'
 LEVEL = 'exploration'
 RULE = ('all time-only programs of the grammar (roots x scripts over D/EQ/GE/LT/INSTANT/ETERNITY with '
-        'colliding small dates, wrapped in scope.do(after|at) and until(delay|date)), for 3 start times; '
+        'colliding small dates, wrapped in scope.do(after|at) and until(delay|date)), for 3 start times; connectives of time '
+        'atoms in every nesting; 5 (thorough: 6) activities with delay plans that keep many distinct dates pending; run(till=...) for every '
+        'start time; '
         'non-trivial = at least two activities have operations ending in the same time step, or an operation '
         'can never resume, or a date is already reached/past when awaited')
 ASSUMPTIONS = [
@@ -114,6 +116,15 @@ def cases(tier):
         for c in conn:
             for pre in ([], [['D', 1]]):
                 progs.append({'start': st, 'roots': [['a', pre + [c, ['INSTANT']]], ['b', [['D', 1], ['GE', 2]]]]})
+    # (every nesting of a connective inside the other one, on either side: c | (a & b) is not c | a | b)
+    natoms = [['GE', 1], ['GE', 2], ['EQ', 2], ['LT', 1], ['LT', 3], ['GE', 3]]
+    nested = []
+    for a, b, c in itertools.permutations(natoms, 3):
+        nested += [['WAIT', ['OR', c, ['AND', a, b]]], ['WAIT', ['AND', c, ['OR', a, b]]],
+                   ['WAIT', ['OR', ['AND', a, b], c]], ['WAIT', ['AND', ['OR', a, b], c]]]
+    for st in (STARTS if thorough else STARTS[:2]):
+        for c in nested:
+            progs.append({'start': st, 'roots': [['a', [c, ['INSTANT']]], ['b', [['D', 1], ['GE', 2]]]]})
     # family F: a child still waiting for its start date when its until-block ends; the simulation goes on past that date
     for st in STARTS:
         for n in ([['DELAY', 1], ['EQ', 1], ['GE', 1]]):
@@ -126,6 +137,17 @@ def cases(tier):
         for s1 in ([['D', 'inf']], [['D', 1], ['D', 'inf']], [['GE', 2], ['D', 'inf']]):
             for s2 in ([['D', 2]], [['D', 'inf']], [['ETERNITY']]):
                 progs.append({'start': st, 'roots': [['a', s1], ['b', s2]]})
+    # family H: many distinct dates pending at once while new ones are scheduled (the order of the time-keyed queue)
+    plans = [[4], [8], [3], [6], [2, 3], [2, 11], [1, 5], [3, 4]]
+    nact = 6 if thorough else 5
+    for combo in itertools.product(plans[:7] if thorough else plans, repeat=nact):
+        progs.append({'start': 0, 'roots': [['a%d' % i, [['D', d] for d in plan]] for i, plan in enumerate(combo)]})
+    # family I: run(till=...) is an absolute date, also for start times other than 0
+    for st in STARTS:
+        for till in (1, 2, 0):
+            for s1 in scripts(SMALL, 2, 1):
+                for s2 in ([['D', 1]], [['D', 3]], [['GE', 2], ['D', 1]], [['ETERNITY']]):
+                    progs.append({'start': st, 'till': till, 'roots': [['a', s1], ['b', s2]]})
     # drop programs that are not valid usim programs (start date in the past)
     valid = []
     for p in progs:
